@@ -206,7 +206,9 @@ theorem InvH.tryAdd {k : Cfg} {s : St} {p : Nat} {el : Int} (h : InvH s) (ho : (
   · split
     · exact h.register ho
     · exact h.refuse ho
-  · exact h.accept ho
+  · split
+    · exact h.refuse ho
+    · exact h.accept ho
 
 theorem InvH.condSignal {s : St} (h : InvH s) : InvH (condSignal s) := by
   obtain ⟨h1, _, _, _, _, _, h7, h8, h9, _, _⟩ := condSignal_fields s
@@ -527,8 +529,10 @@ theorem InvC.tryAdd {k : Cfg} {s : St} {p : Nat} {el : Int} (h : InvC k s) (hw :
   · split
     · rename_i hb; exact h.register hw ⟨h0, h1, hb⟩
     · exact h.retire (x := { s.ps p with ph := .done .full, sig := false }) rfl rfl hw (by simp [Ph.inCond]) rfl
-  · exact h.retire (x := { s.ps p with ph := if k.wfr then .waitRes else .done .ok, el := el, sig := false }) rfl rfl hw
-      (by cases k.wfr <;> simp [Ph.inCond]) rfl
+  · split
+    · exact h.retire (x := { s.ps p with ph := .done .stopped, sig := false }) rfl rfl hw (by simp [Ph.inCond]) rfl
+    · exact h.retire (x := { s.ps p with ph := if k.wfr then .waitRes else .done .ok, el := el, sig := false }) rfl rfl hw
+        (by cases k.wfr <;> simp [Ph.inCond]) rfl
 
 theorem InvC.finish {k : Cfg} {s : St} {id : Nat} {el : Int} {e : Nat} (h : InvC k s) : InvC k (finish k s id el e) := by
   unfold OtelVerif.C02.finish
@@ -731,16 +735,18 @@ theorem InvZ.tryAdd {k : Cfg} {s : St} {p : Nat} {el : Int} (h : InvZ k s) (h0 :
     · exact h.congr rfl rfl rfl rfl rfl
     · exact h.congr rfl rfl rfl rfl rfl
   · rename_i hle
-    refine ⟨?_, ?_, h.posF, ?_, h.hperm⟩
-    · simp only [OtelVerif.C02.accept, sumSz_append, sumSz]
-      have := h.sizeEq
-      omega
-    · intro x hx
-      simp only [OtelVerif.C02.accept, List.mem_append, List.mem_singleton] at hx
-      rcases hx with hx | hx
-      · exact h.posI x hx
-      · subst hx; exact h0
-    · simp only [OtelVerif.C02.accept]; omega
+    split
+    · exact h.congr rfl rfl rfl rfl rfl
+    · refine ⟨?_, ?_, h.posF, ?_, h.hperm⟩
+      · simp only [OtelVerif.C02.accept, sumSz_append, sumSz]
+        have := h.sizeEq
+        omega
+      · intro x hx
+        simp only [OtelVerif.C02.accept, List.mem_append, List.mem_singleton] at hx
+        rcases hx with hx | hx
+        · exact h.posI x hx
+        · subst hx; exact h0
+      · simp only [OtelVerif.C02.accept]; omega
 
 theorem InvZ.pop {k : Cfg} {s s' : St} (h : InvZ k s) (hp : pop s = some s') : InvZ k s' := by
   obtain ⟨id, el, t, hi, rfl⟩ := pop_some hp
@@ -889,26 +895,35 @@ namespace OtelVerif.C02
 
 /-- if somebody is still registered on the cond, either the queue is not empty (a future `onDone` will
 signal) or a signal is already on its way (some waiter's channel is closed and it has not re-evaluated yet) -/
-def InvW (s : St) : Prop := s.waiters ≠ [] → 0 < s.size ∨ ∃ p, (s.ps p).sig = true
+def InvW (s : St) : Prop := s.waiters ≠ [] → 0 < s.size ∨ (∃ p, (s.ps p).sig = true) ∨ s.stopped = true
 
 theorem InvW.of_sig {s s' : St} (h : InvW s) (h1 : s'.waiters = s.waiters) (h2 : s'.size = s.size)
-    (h3 : ∀ q, (s.ps q).sig = true → (s'.ps q).sig = true) : InvW s' := by
+    (h3 : ∀ q, (s.ps q).sig = true → (s'.ps q).sig = true) (h4 : s.stopped = true → s'.stopped = true := by exact fun a => a) :
+    InvW s' := by
   intro hw
   rw [h1] at hw
-  rcases h hw with a | ⟨q, a⟩
+  rcases h hw with a | ⟨q, a⟩ | a
   · left; rw [h2]; exact a
-  · right; exact ⟨q, h3 q a⟩
+  · right; left; exact ⟨q, h3 q a⟩
+  · right; right; exact h4 a
 
-theorem InvW.of_pos {s' : St} (h : 0 < s'.size) : InvW s' := fun _ => Or.inl h
+theorem InvW.of_pos {s' : St} (h : 0 < s'.size ∨ s'.stopped = true) : InvW s' := fun _ => by
+  rcases h with a | a
+  · exact Or.inl a
+  · exact Or.inr (Or.inr a)
 
+/-- after the overflow loop the queue is non-empty, unless it was stopped (then the producer is refused and the
+queue stays as it is: after `Shutdown` nobody is promised a wake-up any more) -/
 theorem tryAdd_size_pos {k : Cfg} {s : St} {p : Nat} {el : Int} (h0 : 0 < el) (h1 : el ≤ k.cap) (h2 : 0 ≤ s.size) :
-    0 < (tryAdd k s p el).size := by
+    0 < (tryAdd k s p el).size ∨ (tryAdd k s p el).stopped = true := by
   unfold tryAdd
   split
   · split
-    · simp only [register]; omega
-    · simp only [refuse]; omega
-  · simp only [accept]; omega
+    · left; simp only [register]; omega
+    · left; simp only [refuse]; omega
+  · split
+    · rename_i hst; right; simpa [refuse] using hst
+    · left; simp only [accept]; omega
 
 theorem condSignal_W (s : St) : (condSignal s).waiters ≠ [] → ∃ w, w ∈ s.waiters ∧ ((condSignal s).ps w).sig = true := by
   unfold condSignal
@@ -987,15 +1002,16 @@ theorem InvW.step {k : Cfg} {s s' : St} {l : Label} (h : InvW s) (hC : InvC k s)
       · rename_i hw
         have hsf := ((hC.wIff p).mp hw).2
         intro _
-        rcases h (List.ne_nil_of_mem hw) with a | ⟨q, a⟩
+        rcases h (List.ne_nil_of_mem hw) with a | ⟨q, a⟩ | a
         · exact Or.inl a
-        · right
+        · right; left
           have hqp : q ≠ p := by intro e; rw [e, hsf] at a; cases a
           exact ⟨q, by simpa [refuse, upd_other _ _ _ _ hqp] using a⟩
+        · right; right; exact a
       · rename_i hw
         intro hne
         obtain ⟨w, hw1, hw2⟩ := condSignal_W s hne
-        right
+        right; left
         have hwp : w ≠ p := fun e => hw (e ▸ hw1)
         exact ⟨w, by simpa [refuse, upd_other _ _ _ _ hwp] using hw2⟩
     · cases hf
@@ -1054,12 +1070,12 @@ theorem InvW.step {k : Cfg} {s s' : St} {l : Label} (h : InvW s) (hC : InvC k s)
       split
       · intro hne
         obtain ⟨w, _, hw2⟩ := hcs hne
-        exact Or.inr ⟨w, hw2⟩
+        exact Or.inr (Or.inl ⟨w, hw2⟩)
       · intro hne
         obtain ⟨w, _, hw2⟩ := hcs hne
-        exact Or.inr ⟨w, hw2⟩
+        exact Or.inr (Or.inl ⟨w, hw2⟩)
     · cases hf
-  | shutdown => simp only [fire] at hf; cases hf; exact h.of_sig rfl rfl (fun _ a => a)
+  | shutdown => simp only [fire] at hf; cases hf; exact fun _ => Or.inr (Or.inr rfl)
 
 theorem InvW.init : InvW {} := by intro h; simp at h
 
@@ -1122,8 +1138,10 @@ theorem InvR.tryAdd {k : Cfg} {s : St} {p : Nat} {el : Int} (h : InvR s) : InvR 
   · split
     · exact h.upd (x := { s.ps p with ph := .sel, el := el, sig := false }) rfl rfl rfl rfl (by simp)
     · exact h.upd (x := { s.ps p with ph := .done .full, sig := false }) rfl rfl rfl rfl (by simp)
-  · exact h.upd (x := { s.ps p with ph := if k.wfr then .waitRes else .done .ok, el := el, sig := false }) rfl rfl rfl rfl
-      (by cases k.wfr <;> simp)
+  · split
+    · exact h.upd (x := { s.ps p with ph := .done .stopped, sig := false }) rfl rfl rfl rfl (by simp)
+    · exact h.upd (x := { s.ps p with ph := if k.wfr then .waitRes else .done .ok, el := el, sig := false }) rfl rfl rfl rfl
+        (by cases k.wfr <;> simp)
 
 theorem InvR.step {k : Cfg} {s s' : St} {l : Label} (h : InvR s) (hf : fire k s l = some s') : InvR s' := by
   cases l with
